@@ -89,11 +89,11 @@ func r27SharedData(c *core.Ctx) {
 				if !ok {
 					continue
 				}
+				ngo++ // every go statement of the module is looked at; only closures can capture variables
 				mc, ok := g.Call.Value.(*ssa.MakeClosure)
 				if !ok {
 					continue
 				}
-				ngo++
 				tf, _ := mc.Fn.(*ssa.Function)
 				for j, bnd := range mc.Bindings {
 					vname := "?"
@@ -119,8 +119,8 @@ func r27SharedData(c *core.Ctx) {
 			}
 		}
 	}
-	if ngo < 2 {
-		c.Bad(R, "closure-goroutines", token.NoPos, fmt.Sprintf("found %d go statements with closures, expected >= 2", ngo))
+	if ngo < 3 {
+		c.Bad(R, "closure-goroutines", token.NoPos, fmt.Sprintf("found %d go statements in the module, expected >= 3 (reader, router, writers)", ngo))
 	}
 	// (b) storage handed out by Feature.Columns() is shared between all target goroutines
 	pk := c.P.PkgShort("processing")
@@ -437,6 +437,31 @@ func r28OneDelivery(c *core.Ctx) {
 
 	// ---- router
 	rf := wtF.SSA
+	// the routing loop itself may live in a helper writeFeaturesToTargets calls: the module function, called from
+	// it, that receives from a pipeline channel
+	{
+		hasRecv := func(fn *ssa.Function) bool {
+			for _, ci := range pl.chans {
+				for _, r := range ci.recvs {
+					if r.Parent() == fn {
+						return true
+					}
+				}
+			}
+			return false
+		}
+		if !hasRecv(rf) {
+			for _, b := range wtF.SSA.Blocks {
+				for _, in := range b.Instrs {
+					if call, ok := in.(*ssa.Call); ok {
+						if g := call.Call.StaticCallee(); g != nil && len(g.Blocks) > 0 && core.IsModPath(core.FuncPkgPath(g)) && hasRecv(g) {
+							rf = g
+						}
+					}
+				}
+			}
+		}
+	}
 	var rrecv *ssa.UnOp
 	var rsends []*ssa.Send
 	for _, ci := range pl.chans {
